@@ -1,6 +1,6 @@
 //! C12: drives TlsTransport<DuplexTransport> against a recording peer.
 //!
-//! case line: <tls yes|no> <uri> <cert good|wrongname|untrusted> <salpn none|h2|h11> <calpn none|h2> <fault none|close|plaintext|truncate|transport>
+//! case line: <tls yes|no> <uri> <cert good|wrongname|untrusted> <salpn none|h2|h11> <calpn none|h2> <fault none|close|plaintext|truncate|transport> [<Host header value|->]
 //! output:    <OKTLS|OKPLAIN|ERRCONN|ERRHS|ERRNODOMAIN|ERROTHER|PANIC> <first bytes at peer: tls|ascii|nothing> <marker seen in clear 0|1> <sni seen by server|-> <client alpn h2|h11|none|-> ;; <uri scheme|-> <uri host|->
 use std::pin::Pin;
 use std::sync::{Arc, Mutex};
@@ -77,10 +77,17 @@ fn client_config(alpn: &str) -> rustls::ClientConfig {
 
 async fn run(f: Vec<String>) -> String {
     let tls_on = f[0] == "yes";
-    let parts = match f[1].parse::<http::Uri>() {
+    let mut parts = match f[1].parse::<http::Uri>() {
         Ok(u) => u.into_request_parts(),
         Err(_) => return "BADURI nothing 0 - - ;; - - -".into(),
     };
+    // the request parts handed to the transport may already carry a Host header (set by the caller);
+    // the server name must come from the URI all the same
+    if let Some(h) = f.get(6).filter(|h| h.as_str() != "-") {
+        if let Ok(v) = http::HeaderValue::from_str(h) {
+            parts.headers.insert(http::header::HOST, v);
+        }
+    }
     let kind = match parts.uri.host() {
         None => "-",
         Some(h) => match rustls::pki_types::ServerName::try_from(h.trim_start_matches('[').trim_end_matches(']')) {
